@@ -58,6 +58,8 @@ FIELD_SORTS: dict[str, tuple[tuple, object]] = {
     "opt_get": ((Ref, Cls), Ref),        # the per-class option dictionary stored under it
     "od_has": ((Ref, Str), Bool),        # the option dictionary has this key
     "od_val": ((Ref, Str), Ref),         # its value
+    # nrpickler (C10): ghost trace of the real writes / memoisations performed through a pickler object
+    "rtrace": ((Ref,), RSeq),
     # interpreter-global state
     "CACHING": ((), Bool),              # Vertex.NEIGHBOR_CACHING
     "stats_has": ((Int,), Bool),        # uid in Vertex._CACHE_STATS
